@@ -4,8 +4,9 @@ package main
 // of the theorem `compile_fragment_wf` (Props/C07.lean: every program of the modelled compiler fragment that the
 // model compiler accepts is compiled to a prototype the verifier `wf` accepts).
 //
-// A program of the C01M token language (conditions, logical / relational operators, local / global assignment,
-// if / while / repeat / return / local) is rendered to Lua and compiled by the REAL front-end; the complete prototype
+// A program of the C01M token language (conditions, logical / relational operators, arithmetic with constant folding,
+// unary minus, length, concatenation chains, local / global assignment, if / while / repeat / return / local) is
+// rendered to Lua and compiled by the REAL front-end; the complete prototype
 // (header fields, code words, constants, stringConstants, nested prototypes) is sent to the Lean engine, which
 // compares it field by field with `fragProto` of the same program and evaluates `FragOK` and `wf`.
 
@@ -82,6 +83,16 @@ func relChain(depth int, leaf *cnd) *cnd {
 	return c
 }
 
+// right-leaning chain of one binary operator over globals (`g0 + (g0 + (… + leaf))`, `g0 .. g0 .. … .. leaf`):
+// arithmetic takes one more temporary per level, a concatenation chain one register per operand (crange)
+func opChain(op string, depth int, leaf *cnd) *cnd {
+	c := leaf
+	for i := 0; i < depth; i++ {
+		c = &cnd{k: op, a: &cnd{k: "g", n: 0}, b: c}
+	}
+	return c
+}
+
 func fragCases(root *Rng, thorough bool) []Case {
 	var cases []Case
 	idx := 2000000
@@ -89,10 +100,11 @@ func fragCases(root *Rng, thorough bool) []Case {
 		cases = append(cases, Case{Idx: idx, Ops: fragOp(p), Note: note})
 		idx++
 	}
-	nRand, nCtxs, nNest := 1200, 500, 60
+	nRand, nCtxs, nNest, keepEnum := 1200, 500, 60, 3
 	if thorough {
-		nRand, nCtxs, nNest = 20000, 8000, 400
+		nRand, nCtxs, nNest, keepEnum = 20000, 8000, 400, 100
 	}
+	arOf := func(r *Rng) int { return Pick(r, []int{0, 45, 55, 55}) } // share of arithmetic / unary / concatenation nodes
 	// (1) random nested programs, 0..6 chunk locals, with and without a final return
 	for i := 0; i < nRand; i++ {
 		r := root.Fork(uint64(i))
@@ -101,17 +113,30 @@ func fragCases(root *Rng, thorough bool) []Case {
 		if r.Chance(8) {
 			nl, depth = 0, 0 // no chunk locals (no VARARG prologue): straight-line code over globals and fresh locals
 		}
-		add(&mprog{nlocals: nl, body: genBlock(r, depth, nl, r.Range(0, 5), r.Chance(50))}, "frag:random-program")
+		add(&mprog{nlocals: nl, body: genBlockX(r, depth, nl, r.Range(0, 5), r.Chance(50), arOf(r))}, "frag:random-program")
 	}
 	// (2) random deep conditions in every destination context
 	for i := 0; i < nCtxs; i++ {
 		r := root.Fork(uint64(100000 + i))
-		add(inContext(r.Intn(nCtx), genCond(r, r.Range(2, 6), 3)), "frag:deep-condition")
+		add(inContext(r.Intn(nCtx), genCondX(r, r.Range(2, 6), 3, arOf(r))), "frag:deep-condition")
 	}
 	// (3) nested relational operators (temporaries) in value and branch contexts
 	for i := 0; i < nNest; i++ {
 		r := root.Fork(uint64(200000 + i))
 		add(inContext(r.Intn(nCtx), relNest(r, r.Range(1, 4), 3)), "frag:rel-nest")
+	}
+	// (3b) bounded-exhaustive operator × operand-class trees of the arithmetic family (22 operand classes incl. folded
+	//      constants, NaN, -0, nested operators, logical / relational operands)², unary operators once and twice,
+	//      concatenation chains of 3 and 4 in every nesting, mixed precedence shapes — each in one context (quick: sampled)
+	bin, un, chains := enumArithTrees()
+	for fi, fam := range [][]*cnd{bin, un, chains} {
+		for ti, t := range fam {
+			r := root.Fork(uint64(300000 + fi*100000 + ti))
+			if !r.Chance(keepEnum) {
+				continue
+			}
+			add(inContext(r.Intn(nCtx), t), "frag:arith-enum")
+		}
 	}
 	// (4) register ceiling: 150..200 chunk locals, a right-leaning relational chain on top (NumUsedRegisters around
 	//     maxRegisters = 200 from both sides: accepted and "register overflow")
@@ -124,6 +149,11 @@ func fragCases(root *Rng, thorough bool) []Case {
 			add(&mprog{nlocals: nl, body: body}, "frag:register-ceiling")
 			body2 := []*stm{{k: "if", c: relChain(d, num(1)), b1: []*stm{retS(loc(0))}}}
 			add(&mprog{nlocals: nl, body: body2}, "frag:register-ceiling")
+			// the same with arithmetic temporaries and with the operand registers of a concatenation chain
+			body3 := []*stm{{k: "assign", targets: []string{"g0"}, rhs: []*cnd{opChain("@add", d, loc(0))}}, retS(opChain("@cat", d, num(1)))}
+			add(&mprog{nlocals: nl, body: body3}, "frag:register-ceiling")
+			body4 := []*stm{{k: "while", c: &cnd{k: "@len", a: opChain("@cat", d, str("x"))}, b1: loopGuard(1)}, {k: "assign", targets: []string{"g1"}, rhs: []*cnd{{k: "@unm", a: opChain("@mul", d, glob(1))}}}}
+			add(&mprog{nlocals: nl, body: body4}, "frag:register-ceiling")
 		}
 	}
 	// (5) constant pool windows: n distinct number constants, then comparisons / loads with constants whose index
@@ -139,6 +169,10 @@ func fragCases(root *Rng, thorough bool) []Case {
 			&stm{k: "while", c: &cnd{k: "ge", a: &cnd{k: "g", n: 1}, b: num(1000)}, b1: loopGuard(1)},
 			retS(loc(0), num(10)))
 		add(&mprog{nlocals: 1, body: body}, "frag:constant-window")
+	}
+	//     … and d-C01's window program (arithmetic with constant operands behind n filler constants)
+	for _, n := range []int{3, 250, 253, 254, 255, 256, 257, 258, 300} {
+		add(kWindowProg(n), "frag:constant-window")
 	}
 	// (6) long MOVE runs (MOVEN merging, also past opMaxArgsC followers) and jumps onto MOVEN tails
 	for _, n := range []int{1, 2, 3, 50, 199} {
